@@ -7,8 +7,10 @@
    denotation: "the bytes at [rt_off t] represent the tree t".  *)
 From PV.Model Require Import Machine Mapping Views Resources.
 From PV.Spec Require Import ResTree Ico SafetySpec ResSafety.
-From PV.Proofs Require ResourcesProofs ResourcesDeep ResourcesCount ResourcesSafety.
-Import ResourcesProofs ResourcesDeep ResourcesCount.
+From PV.Spec Require Cur.
+From PV.Model Require ResourcesArt.
+From PV.Proofs Require ResourcesProofs ResourcesDeep ResourcesCount ResourcesSafety ResourcesCur ResourcesArt.
+Import ResourcesProofs ResourcesDeep ResourcesCount ResourcesCur.
 
 (* ---- entry arrays: named first, ids last, at off + 16 + 8 i ---- *)
 Theorem C12_entries_named_then_ids : forall s off, entries s off = named_entries s off ++ id_entries s off.
@@ -147,14 +149,63 @@ Theorem C12_find_api_no_fault : forall lo s a b c off q rooted parts g id,
 Proof. exact ResourcesProofs.find_api_no_fault. Qed.
 Print Assumptions C12_find_api_no_fault.
 
-(* ---- 4. group reassembly = Ico.encode: header, entries with recomputed offsets 6 + 16 n + sum of sizes, data ---- *)
+(* ---- 4. group reassembly reproduces the file: header, entries with recomputed offsets 6 + 16 n + sum of sizes, then the image
+        data in entry order.
+        ICON groups (idType = 1): the group entry is the file entry with the offset replaced by the resource id, so the file is
+        Ico.encode of the first 12 bytes of every entry and the RT_ICON resources.  (Restated after the independent audit: the
+        statement used to cover idType = 2 as well, through the same encoder - which was the code's own assumption that a
+        cursor group has the icon layout, see F44 below.  It now says idType = 1.) ---- *)
 Theorem C12_group_write_ico : forall s lookup g datas,
-  sec_ok s -> group_new s g = Ok g ->
+  sec_ok s -> group_new s g = Ok g -> g_type s g = 1 ->
   Forall2 (fun e d => lookup (ge_id s e) = Some d /\ lenN d = ge_bytes_in_res s e) (g_entries s g) datas ->
   6 + 16 * g_count s g + total_len datas < W32 ->
-  write_with s lookup g = (ico_encode (g_type s g) (mk_images s (g_entries s g) datas), true).
+  write_with s lookup g = (ico_encode 1 (mk_images s (g_entries s g) datas), true).
 Proof. exact ResourcesProofs.group_write_ico. Qed.
 Print Assumptions C12_group_write_ico.
+
+(* ---- 4b. CURSOR groups (idType = 2), after the F44 repair.  Spec/Cur.v is an independent model of the .cur FILE
+        (Cur.file = list of width, height, hotspot, DIB; Cur.encode_file: ICONDIR, CURSORDIRENTRY { bWidth, bHeight, 0, 0, wXHotspot,
+        wYHotspot, dwBytesInRes, dwImageOffset } with offsets 6 + 16 n + sums, then the DIBs) and of what a resource compiler
+        stores for it (Cur.to_resources: RT_GROUP_CURSOR entries { wWidth, wHeight = twice the height, wPlanes, wBitCount,
+        dwBytesInRes, nId } and RT_CURSOR resources = 4-byte hotspot + DIB).
+        (i)   the written file is the .cur file of the cursor images that the stored pieces denote ([Cur.of_resources] on the
+              14-byte entries and the resources found), for every accepted cursor group whose resources are found, hold at
+              least the hotspot and have the stated sizes; this is what the check evaluates on the implementation's output;
+        (ii)  reading back what the compiler stored gives the file (Spec only);
+        (iii) hence: compile any .cur file, put the group bytes and the resources in a section: write reproduces the file. ---- *)
+Theorem C12_group_write_cur_pieces : forall s lookup g ps,
+  sec_ok s -> group_new s g = Ok g -> g_type s g = 2 ->
+  Forall2 (fun e p => lookup (ge_id s e) = Some p /\ bytes_ok (firstn 4 p) /\ 4 <= lenN p /\ lenN p = ge_bytes_in_res s e) (g_entries s g) ps ->
+  Cur.file_size (Cur.of_resources (map (fun e => sec_bytes s e 14) (g_entries s g)) ps) < W32 ->
+  write_with s lookup g = (Cur.encode_file (Cur.of_resources (map (fun e => sec_bytes s e 14) (g_entries s g)) ps), true).
+Proof. exact ResourcesCur.group_write_cur_pieces. Qed.
+Print Assumptions C12_group_write_cur_pieces.
+
+Theorem C12_cur_resources_roundtrip : forall c ids, Forall Cur.image_ok c -> length ids = length c ->
+  Cur.of_resources (Cur.group_entries c ids) (Cur.payloads c) = c.
+Proof. exact ResourcesCur.of_resources_compiled. Qed.
+Print Assumptions C12_cur_resources_roundtrip.
+
+Theorem C12_group_write_cur : forall s lookup g c ids,
+  sec_ok s -> group_new s g = Ok g ->
+  Forall Cur.image_ok c -> length ids = length c -> Forall (fun id => id < 65536) ids ->
+  sec_bytes s (r_off g) (r_len g) = fst (Cur.to_resources c ids) ->
+  Forall (fun x => lookup (fst x) = Some (snd x)) (snd (Cur.to_resources c ids)) ->
+  Cur.file_size c < W32 ->
+  write_with s lookup g = (Cur.encode_file c, true).
+Proof. exact ResourcesCur.group_write_cur. Qed.
+Print Assumptions C12_group_write_cur.
+
+(* the same with the resources looked up through GroupResource::image, i.e. for the model of write itself *)
+Theorem C12_group_write_cur_image : forall s g c ids,
+  sec_ok s -> group_new s g = Ok g ->
+  Forall Cur.image_ok c -> length ids = length c -> Forall (fun id => id < 65536) ids ->
+  sec_bytes s (r_off g) (r_len g) = fst (Cur.to_resources c ids) ->
+  Forall (fun x => exists rg, g_image s g (fst x) = FOk rg /\ sec_bytes s (r_off rg) (r_len rg) = snd x) (snd (Cur.to_resources c ids)) ->
+  Cur.file_size c < W32 ->
+  group_write s g = (Cur.encode_file c, true).
+Proof. exact ResourcesCur.group_write_cur_image. Qed.
+Print Assumptions C12_group_write_cur_image.
 
 (* ---- the code as it stood ---- *)
 Theorem C12_F4_slice_orig_refuted :
@@ -179,6 +230,21 @@ Theorem C12_F26_group_write_orig_refuted :
   write_with f26_witness (fun _ => None) {| r_off := 0; r_len := 20 |} = ([0;0; 2;0; 1;0], false).
 Proof. exact ResourcesProofs.group_write_orig_refuted. Qed.
 Print Assumptions C12_F26_group_write_orig_refuted.
+
+(* F44 (found by the independent audit; rediscovered by the check once the harness stored real cursors): as it stood, write
+   copied cursor group entries like icon entries and left the hotspot in front of the image.  The witness is the section of
+   corpus/C12/f44-cursor-group-written-as-icon.case: what Cur.to_resources makes of a one-image cursor file. *)
+Theorem C12_F44_cursor_group_orig_refuted :
+  sec_bytes f43_witness 172 20 = fst (Cur.to_resources f43_file [2]) /\
+  image_lookup f43_witness f43_group 2 = Some (Cur.payload (hd {| Cur.cur_w := 0; Cur.cur_h := 0; Cur.cur_hx := 0; Cur.cur_hy := 0; Cur.cur_dib := [] |} f43_file)) /\
+  group_list f43_witness RT_GROUP_CURSOR = [FOk (NId 177, f43_group)] /\
+  Cur.encode_file f43_file = [0;0; 2;0; 1;0;  255; 255; 0; 0; 127;0; 205;0; 7;0;0;0; 22;0;0;0;  88; 219; 255; 117; 197; 159; 166] /\
+  group_write_orig f43_witness f43_group =
+    Ok [0;0; 2;0; 1;0;  255; 0; 254; 1; 0;0; 0;0; 11;0;0;0; 22;0;0;0;  127;0; 205;0; 88; 219; 255; 117; 197; 159; 166] /\
+  group_write_orig f43_witness f43_group <> Ok (Cur.encode_file f43_file) /\
+  group_write f43_witness f43_group = (Cur.encode_file f43_file, true).
+Proof. exact ResourcesCur.cursor_group_orig_refuted. Qed.
+Print Assumptions C12_F44_cursor_group_orig_refuted.
 
 (* ---- 1b. the converse: a traversal (any depth, any budget) of an accepted directory that lists only valid names,
         references and data ranges and is neither cut nor stopped IS the depth-first listing of a tree the bytes denote;
@@ -303,6 +369,24 @@ Theorem C12_display_lines_bound : forall s, display_lines s <= 1 + rs_len s / 8.
 Proof. exact ResourcesCount.display_lines_bound. Qed.
 Print Assumptions C12_display_lines_bound.
 
+(* ---- 3d. the TEXT of the tree printer (Model/ResourcesArt.v mirrors art.rs: margin cells, "+-- " / "`-- " prefixes, predefined
+        '#TYPE' names at the root level only, UTF-16 names with U+FFFD for unpaired surrogates, error texts for invalid
+        names, "/" after directories; the check compares the implementation's text with it byte by byte).  The text has the
+        recursion skeleton the bounds above are proved for: exactly display_lines lines, for ANY section. ---- *)
+Theorem C12_display_text_lines : forall s, lenN (ResourcesArt.display_text s) = display_lines s.
+Proof. exact PV.Proofs.ResourcesArt.display_text_lines. Qed.
+Print Assumptions C12_display_text_lines.
+Example C12_display_text_nonvacuous :
+  ResourcesArt.display_text ex_sec = [ResourcesArt.T_HEADING; [96; 45; 45; 32; 35; 70; 79; 78; 84; 68; 73; 82; 10]] /\
+  ResourcesArt.display_text f16_witness =
+    [ResourcesArt.T_HEADING; [96; 45; 45; 32; 35; 67; 85; 82; 83; 79; 82; 47; 10];
+                             [32; 32; 32; 32; 96; 45; 45; 32; 35; 49; 47; 10];
+                             [32; 32; 32; 32; 32; 32; 32; 32; 96; 45; 45; 32; 35; 49; 47; 10]] /\
+  display_lines f16_witness = 4 /\
+  ResourcesArt.display_text (sec_of 4098 4096 [0;0;0;0; 0;0;0;0; 0;0;0;0; 0;0; 0;0]) =
+    [ResourcesArt.T_HEADING ++ [97; 100; 100; 114; 101; 115; 115; 32; 109; 105; 115; 97; 108; 105; 103; 110; 101; 100]].
+Proof. exact PV.Proofs.ResourcesArt.art_nonvacuous. Qed.
+
 (* ---- 5. memory safety of the borrows (C01 vocabulary, Spec/SafetySpec.v + Spec/ResSafety.v): every reference and slice
         the resources API hands out lies inside the section bytes and its ADDRESS is aligned for its type - for any
         bytes, length, section address and directory RVA.  [sec_typed s a r] = typed_safe (rs_addr s) (rs_len s) a r;
@@ -380,6 +464,25 @@ Example C12_nonvacuous :
                                       i_tgt := TData 24 (Ok {| r_off := 40; r_len := 4 |}) 4 1252 |}] /\
   dir_get 48 ex_sec 0 (NStr [35; 48; 55]) = FOk (EData 24) /\ dir_get 48 ex_sec 0 (NStr [35; 56]) = FErr FNotFound.
 Proof. exact ResourcesProofs.ex_nonvacuous. Qed.
+
+(* the hypotheses of C12_group_write_cur_image hold for a concrete section; sizes of 256 are the byte 0 in the file and 256 / 512 in
+   the group entry; the group entry found in user32.dll decodes to 32 x 32; a cursor entry whose resource is missing or
+   shorter than the hotspot is an error and nothing of it is written *)
+Example C12_cursor_nonvacuous :
+  group_new f43_witness f43_group = Ok f43_group /\ Forall Cur.image_ok f43_file /\
+  Forall (fun x => exists rg, g_image f43_witness f43_group (fst x) = FOk rg /\ sec_bytes f43_witness (r_off rg) (r_len rg) = snd x)
+         (snd (Cur.to_resources f43_file [2])) /\
+  Cur.file_size f43_file = 29 /\
+  Cur.of_resources (Cur.group_entries f43_file [2]) (Cur.payloads f43_file) = f43_file /\
+  Cur.file_entry {| Cur.cur_w := 256; Cur.cur_h := 256; Cur.cur_hx := 0; Cur.cur_hy := 65535; Cur.cur_dib := [] |} 22 =
+    [0; 0; 0; 0; 0;0; 255;255; 0;0;0;0; 22;0;0;0] /\
+  Cur.group_entry {| Cur.cur_w := 256; Cur.cur_h := 256; Cur.cur_hx := 0; Cur.cur_hy := 65535; Cur.cur_dib := [] |} 7 =
+    [0;1; 0;2; 0;0; 0;0; 4;0;0;0; 7;0] /\
+  Cur.cur_w (Cur.of_entry [32;0; 64;0; 1;0; 1;0; 52;1;0;0; 1;0] [6;0; 3;0; 40]) = 32 /\
+  Cur.cur_h (Cur.of_entry [32;0; 64;0; 1;0; 1;0; 52;1;0;0; 1;0] [6;0; 3;0; 40]) = 32 /\
+  write_with f43_witness (fun _ => None) f43_group = ([0;0; 2;0; 1;0], false) /\
+  write_with f43_witness (fun _ => Some [1; 2; 3]) f43_group = ([0;0; 2;0; 1;0], false).
+Proof. exact ResourcesCur.cur_nonvacuous. Qed.
 
 Example C12_nonvacuous_deep :
   repr ex3_sec ex3_tree = true /\
